@@ -207,3 +207,32 @@ func StateFault(deviator party.ID, roundType, field string, key party.ID, restor
 	}
 	return f
 }
+
+// RewriteOwnBroadcast replaces the content of the handler's stored copy of its own broadcast of
+// the given round (the copy that enters the echo hash), so that a deviator that alters its
+// broadcast for everybody stays consistent with itself.
+func RewriteOwnBroadcast(h protocol.Handler, rnd int, self party.ID, tf func([]byte) []byte) bool {
+	v := reflect.ValueOf(h)
+	if v.Kind() != reflect.Ptr {
+		return false
+	}
+	f := v.Elem().FieldByName("broadcast")
+	if !f.IsValid() {
+		return false
+	}
+	f = reflect.NewAt(f.Type(), unsafe.Pointer(f.UnsafeAddr())).Elem()
+	for _, rk := range f.MapKeys() {
+		if int(rk.Uint()) != rnd {
+			continue
+		}
+		inner := f.MapIndex(rk)
+		m := inner.MapIndex(reflect.ValueOf(self))
+		if !m.IsValid() || m.IsNil() {
+			return false
+		}
+		msg := m.Interface().(*protocol.Message)
+		msg.Data = tf(msg.Data)
+		return true
+	}
+	return false
+}
